@@ -102,6 +102,9 @@ package rtpbuffer
 //@        && len(payload) > 0 && int(old(payload[len(payload) - 1])) > len(payload)))
 //@   ensures fresh_packet: result0 != nil ==> fresh(result0) && result0.count == 1 && result0.sequenceNumber == header.SequenceNumber
 //@   ensures private_header: result0 != nil ==> result0.header != nil && result0.header != header && fresh(result0.header)
+//@   # extension payloads live in an unexported field of pion/rtp: their privacy is known only through Header.Clone's assumed
+//@   # deep-copy contract, so the stored header has to come from exactly one Clone of the caller's header
+//@   ensures header_is_a_deep_clone: result0 != nil ==> calls("Clone") == 1
 //@   ensures private_payload: result0 != nil && payload != nil ==> !sameblock(result0.payload, payload)
 //@   ensures private_csrc_and_extensions: result0 != nil ==> !sameblock(result0.header.CSRC, header.CSRC) && !sameblock(result0.header.Extensions, header.Extensions)
 //@   ensures caller_payload_untouched: forall k int :: 0 <= k && k < len(payload) ==> payload[k] == old(payload[k])
